@@ -98,6 +98,17 @@ TABLE: dict[str, list[tuple]] = {
          "_load_logic_into_logic_list", "P:self", REC, [INNER, BRANCH, OUTG],
          [], ""),
     ],
+    # ---- selecting / replacing the alternatives of a logic node by position
+    "Node.get_outgoing_logic_by_indices": [
+        ("the alternatives at the given positions, IN THE ORDER GIVEN (the "
+         "caller lays out kept, finished and new alternatives by that order "
+         "and computes index maps from it)", "ret", "", "",
+         ("[P:self.outgoing_logic[each(P:indices)] for..]",), [], [], ""),
+    ],
+    "Node.set_outgoing_logic": [
+        ("the node's alternatives are replaced by the list given", "store",
+         "", "P:self.outgoing_logic", ("P:outgoing_logic",), [], [], ""),
+    ],
     # ---- a logic block starts as a faithful, private mirror of its node
     "LogicBlockHolder.__init__": [
         ("paths are a private copy of the node's outgoing logic", "store",
